@@ -18,9 +18,52 @@ import ast
 
 from ..engine.model import AnalysisError, src, walk_own
 from ..engine.flow import Flow
+from ..engine.inline import Inliner, norm_text, resolved_in_block
 from ..engine.typestate import FactDomain, EventDomain
 
 MOD = 'basic_robotics.utilities.disp'
+
+
+def canonicalise_roles(dispa):
+    """Discover the locals of dispa by role and rename them (in this process' syntax tree only) to the names the rules use:
+    shape (matrix.shape), dims (len(shape)), strr (the returned accumulator), t_nd (the per-element precision started from nd),
+    fmat (the format spec), h (the row accumulator parameter is a parameter already)."""
+    mat, nd = dispa.params[0], dispa.params[2]
+    own = list(walk_own(dispa.node))
+    roles = {}
+
+    def assigned(pred, what, many=False):
+        got = {n.targets[0].id for n in own if isinstance(n, ast.Assign) and len(n.targets) == 1 and isinstance(n.targets[0], ast.Name) and pred(n.value)}
+        if len(got) != 1:
+            raise AnalysisError('dispa: local for %s not recognised (%s)' % (what, sorted(got)))
+        return got.pop()
+    shape = assigned(lambda v: norm_text(v) == '%s.shape' % mat, 'the shape')
+    roles[shape] = 'shape'
+    roles[assigned(lambda v: norm_text(v) == 'len(%s)' % shape, 'the number of dimensions')] = 'dims'
+    rets = [n for n in dispa.body() if isinstance(n, ast.Return) and isinstance(n.value, ast.Name)]
+    if not rets:
+        raise AnalysisError('dispa: final return of the accumulated string not recognised')
+    roles[rets[-1].value.id] = 'strr'
+    fm_defs = [n.value for n in own if isinstance(n, ast.Assign) and len(n.targets) == 1 and isinstance(n.targets[0], ast.Name)
+               and any(isinstance(c, ast.Constant) and c.value == '{:' for c in ast.walk(n.value))]
+    prec = []
+    for v in fm_defs:
+        strs = [c for c in ast.walk(v) if isinstance(c, ast.Call) and isinstance(c.func, ast.Name) and c.func.id == 'str' and len(c.args) == 1]
+        strs.sort(key=lambda c: (c.lineno, c.col_offset))
+        if strs and isinstance(strs[-1].args[0], ast.Name) and strs[-1].args[0].id not in dispa.params:
+            prec.append(strs[-1].args[0].id)
+    if len(set(prec)) == 1:
+        roles[prec[0]] = 't_nd'
+    roles[assigned(lambda v: any(isinstance(c, ast.Constant) and c.value == '{:' for c in ast.walk(v)), 'the format spec')] = 'fmat'
+    if len(set(roles.values())) != len(roles):
+        raise AnalysisError('dispa: one local plays two roles (%s)' % roles)
+    clash = {v for k, v in roles.items() if k != v} & ({n.id for n in own if isinstance(n, ast.Name)} - set(roles))
+    if clash:
+        raise AnalysisError('dispa: role names already used for something else: %s' % sorted(clash))
+    for n in own:
+        if isinstance(n, ast.Name) and n.id in roles:
+            n.id = roles[n.id]
+    return roles
 
 
 def check(model, rep):
@@ -30,6 +73,8 @@ def check(model, rep):
         'raising probes inside the catch-all; round() only under a not-isinf fact.')
     disp = model.func(MOD, 'disp')
     dispa = model.func(MOD, 'dispa')
+    roles = canonicalise_roles(dispa)
+    rep.note('locals of dispa by role: %s' % {v: k for k, v in sorted(roles.items())})
     # ---------------------------------------------------------------- R20.1
     rep.rule('R20.1', 'disp prints exactly the string it returns, once, unless noprint')
     prints = [c for c in walk_own(disp.node) if isinstance(c, ast.Call) and src(c.func) == 'print']
